@@ -58,6 +58,12 @@ fn conv(s: &SeqSpec) -> PResult {
     arr_conv!(63, 2);
     arr_conv!(64, 2);
     arr_conv!(65, 3);
+    arr_conv!(95, 3);
+    arr_conv!(96, 3);
+    arr_conv!(97, 4);
+    arr_conv!(127, 4);
+    arr_conv!(128, 4);
+    arr_conv!(129, 5);
     // N and W are independent parameters of the public type: arrays with spare (zero) backing words
     arr_conv!(0, 1);
     arr_conv!(1, 3);
